@@ -39,7 +39,7 @@ contract(F + "RerunFormatter.eof", props=P, params={"self": "ref:RerunFormatter"
          loops=[Loop(invariant={
              "prefix-kept": "len(self.failed_scenarios) >= old(len(self.failed_scenarios)) and "
                             "forall(lambda j: implies(0 <= j < old(len(self.failed_scenarios)), "
-                            "self.failed_scenarios[j] is old(self.failed_scenarios)[j]))",
+                            "self.failed_scenarios[j] is old(self.failed_scenarios[j])))",
              "appended-are-failed-scenarios-seen-so-far":
                  "forall(lambda j: implies(old(len(self.failed_scenarios)) <= j < len(self.failed_scenarios), "
                  "child_status(self.failed_scenarios[j]).has_failed() and 0 <= rank(self.failed_scenarios[j]) < _i "
@@ -57,7 +57,7 @@ contract(F + "RerunFormatter.eof", props=P, params={"self": "ref:RerunFormatter"
          ensures={
              "earlier-entries-kept":
                  "len(%s) >= old(len(self.failed_scenarios)) and forall(lambda j: implies(0 <= j < old(len(self.failed_scenarios)), "
-                 "%s[j] is old(self.failed_scenarios)[j]))" % (NEW, NEW),
+                 "%s[j] is old(self.failed_scenarios[j])))" % (NEW, NEW),
              "only-unsuccessful-scenarios-of-this-feature":
                  "implies(not is_none(old(self.current_feature)), forall(lambda j: implies(old(len(self.failed_scenarios)) <= j < len(%s), "
                  "child_status(%s[j]).has_failed() and 0 <= rank(%s[j]) < len(%s) and %s[j] is %s[rank(%s[j])])))"
